@@ -11,6 +11,8 @@
 #include <memory>
 #include <ostream>
 #include <random>
+#include <stdexcept>
+#include <string>
 #include <vector>
 
 namespace vf
@@ -130,6 +132,44 @@ public:
 
 private:
     std::uint64_t state_;
+};
+
+
+// wrapper that refuses absurd discards: an MPI rank that is told to skip (almost) 2^64 numbers never
+// returns in a real run; here that is turned into an exception (a logical, not a timed, verdict)
+struct discard_limit
+{
+    static unsigned long long& value() { static unsigned long long v = ~0ull; return v; }
+};
+
+template <typename E>
+class guard_engine
+{
+public:
+    using result_type = typename E::result_type;
+
+    guard_engine() = default;
+    explicit guard_engine(E const& e) : e_(e) {}
+    explicit guard_engine(result_type seed) : e_(seed) {}
+
+    static constexpr result_type min() { return E::min(); }
+    static constexpr result_type max() { return E::max(); }
+
+    result_type operator()() { return e_(); }
+    void discard(unsigned long long n)
+    {
+        if (n > discard_limit::value()) { throw std::runtime_error("generator.discard(" + std::to_string(n) + "): far beyond everything the run can consume"); }
+        e_.discard(n);
+    }
+    E const& base() const { return e_; }
+
+    friend bool operator==(guard_engine const& a, guard_engine const& b) { return a.e_ == b.e_; }
+    friend bool operator!=(guard_engine const& a, guard_engine const& b) { return !(a == b); }
+    friend std::ostream& operator<<(std::ostream& o, guard_engine const& e) { return o << e.e_; }
+    friend std::istream& operator>>(std::istream& i, guard_engine& e) { return i >> e.e_; }
+
+private:
+    E e_;
 };
 
 // how many raw draws one generate_canonical<T, digits> costs on engine type E (measured, not derived)
